@@ -182,4 +182,49 @@ theorem idxOfAux_isSome (V : List Var) (k : Nat) (n : String) (h : n ∈ V.map (
 theorem idxOf_isSome (V : List Var) (n : String) (h : n ∈ V.map (·.name)) : (idxOf V n).isSome :=
   idxOfAux_isSome V 0 n h
 
+/-! ### the environment / the `values` dict that a point `x` in the order `V` stands for -/
+
+/-- `dict(zip([v.name for v in V], x))` (a later duplicate name overwrites, as in `idxOf`) -/
+def dictOf (V : List Var) (x : List α) (n : String) : Option α := (idxOf V n).bind (x[·]?)
+
+/-- a total environment extending `dictOf V x` (zero elsewhere; names outside `V` never matter) -/
+def envOf (V : List Var) (x : List α) (n : String) : α := (dictOf V x n).getD zero
+
+theorem idxOf_get_of_nodup (V : List Var) (hnd : (V.map (·.name)).Nodup) (i : Nat) (h : i < V.length) :
+    idxOf V (V[i]'h).name = some i := by
+  have hmem : (V[i]'h).name ∈ V.map (·.name) := List.mem_map.mpr ⟨V[i], List.getElem_mem h, rfl⟩
+  obtain ⟨j, hj⟩ := Option.isSome_iff_exists.mp (idxOf_isSome V _ hmem)
+  obtain ⟨hjlt, hname⟩ := idxOf_sound V _ _ hj
+  have hi' : i < (V.map (·.name)).length := by simpa using h
+  have hj' : j < (V.map (·.name)).length := by simpa using hjlt
+  have : (V.map (·.name))[j]'hj' = (V.map (·.name))[i]'hi' := by simpa using hname
+  have hji : j = i := (List.getElem_inj hnd).mp this
+  rw [hj, hji]
+
+/-- with pairwise distinct names the point `x` really is "the values in the order of `V`" -/
+theorem agree_envOf (V : List Var) (x : List α) (hnd : (V.map (·.name)).Nodup)
+    (hlen : x.length = V.length) : Agree (envOf V x) V x := by
+  intro i h
+  have hx : i < x.length := by omega
+  simp [envOf, dictOf, idxOf_get_of_nodup V hnd i h, List.getElem?_eq_getElem hx]
+
+theorem dictOf_agree {V : List Var} {ρ : String → α} {x : List α} (hx : Agree ρ V x) {n : String}
+    (hn : n ∈ V.map (·.name)) : dictOf V x n = some (ρ n) := by
+  obtain ⟨i, hi⟩ := Option.isSome_iff_exists.mp (idxOf_isSome V n hn)
+  obtain ⟨hlt, hname⟩ := idxOf_sound V n i hi
+  simp [dictOf, hi, hx i hlt, hname]
+
+theorem dictArgs_ok (values : String → Option α) (ρ : String → α) (V : List Var)
+    (h : ∀ v ∈ V, values v.name = some (ρ v.name)) : dictArgs values V = .ok (valsOf ρ V) := by
+  induction V with
+  | nil => rfl
+  | cons v t ih =>
+    have hv := h v (by simp)
+    have ht := ih (fun w hw => h w (by simp [hw]))
+    simp [dictArgs, hv, ht, valsOf]
+
+theorem agree_valsOf (ρ : String → α) (V : List Var) : Agree ρ V (valsOf ρ V) := by
+  intro i h
+  simp [valsOf, h]
+
 end Optyx.Py
